@@ -163,6 +163,55 @@ def resolve_targets(root_ast, cur_ast, first_ast, wroot_ast):
     return t
 
 
+SLICE_CODE = {'Dict': '{zz: yy}', 'MatchMapping': '{1: zz}', 'Compare': 'zz < yy', 'Call': 'zz, kk=yy', 'ClassDef': 'zz, kk=yy',
+              'arguments': 'zz, yy=1', 'MatchClass': 'zz, kk=yy', 'Module': 'zz\nyy', 'If': 'zz\nyy', 'FunctionDef': 'zz\nyy',
+              'With': 'zz as yy', 'Import': 'zz, yy', 'Delete': 'zz, yy', 'Assign': 'zz = yy =', 'BoolOp': 'zz and yy',
+              'Global': 'zz, yy', 'Try': 'zz\nyy', 'Match': 'case zz: pass'}
+
+
+def _by_pos(nodes):
+    return sorted(nodes, key=lambda n: (n.lineno, n.col_offset))
+
+
+def slice_site(ta):
+    """(parent FST, (virtual) list field, index, length) of the element or key:value pair `ta` belongs to, or None.
+    Paired / merged containers are addressed through their virtual fields (Dict._all, MatchMapping._all, Compare._all,
+    Call._args, ClassDef._bases, arguments._all, MatchClass._attrs); plain list fields by their own name."""
+    f = ta.f
+    pf = f.parent
+    if pf is None or f.pfield is None:
+        return None
+    p = pf.a
+    name, idx = f.pfield.name, f.pfield.idx
+    cls = p.__class__
+    if cls is ast.Dict:
+        return (pf, '_all', idx, len(p.keys)) if idx is not None else None
+    if cls is ast.MatchMapping:
+        return (pf, '_all', idx, len(p.keys) + (1 if p.rest else 0)) if idx is not None else None
+    if cls is ast.Compare:
+        if name == 'ops':
+            return None
+        return pf, '_all', 0 if name == 'left' else idx + 1, len(p.comparators) + 1
+    if cls is ast.Call and name in ('args', 'keywords'):
+        al = _by_pos(p.args + p.keywords)
+        return pf, '_args', al.index(ta), len(al)
+    if cls is ast.ClassDef and name in ('bases', 'keywords'):
+        al = _by_pos(p.bases + p.keywords)
+        return pf, '_bases', al.index(ta), len(al)
+    if cls is ast.arguments:
+        al = _by_pos(p.posonlyargs + p.args + ([p.vararg] if p.vararg else []) + p.kwonlyargs + ([p.kwarg] if p.kwarg else []))
+        return (pf, '_all', al.index(ta), len(al)) if ta in al else None
+    if cls is ast.MatchClass and name in ('patterns', 'kwd_patterns'):
+        n = len(p.patterns) + len(p.kwd_patterns)
+        return pf, '_attrs', idx if name == 'patterns' else len(p.patterns) + idx, n
+    if idx is None:
+        return None
+    lst = getattr(p, name, None)
+    if not isinstance(lst, list):
+        return None
+    return pf, name, idx, len(lst)
+
+
 class ActionRejected(Exception):
     pass
 
@@ -217,6 +266,8 @@ def run_case(case, FST, oracle=True):
     sent_true_on_leave = False
     nested_roots = set()
     seen_leave = set()
+    entered_fsts = []
+    root_sent_false = False
     any_send_true = False
     # expectations set by the previous yield's actions, checked at the following yields
     expect = None
@@ -263,6 +314,7 @@ def run_case(case, FST, oracle=True):
                                             'without any send(True)', ('remove', 'collapse') if res.get('moved') else None)
                     seen_leave.add((id(f), id(a)))
                 if not leaving:
+                    entered_fsts.append((f, k))
                     if id(a) in seen_enter and not sent_true_on_leave:
                         bad('double-entry', f'yield {k}: {a.__class__.__name__} entered twice')
                     seen_enter.add(id(a))
@@ -285,6 +337,8 @@ def run_case(case, FST, oracle=True):
                     item = None
                     break
                 did_send = act[1]
+                if f is wroot and not leaving:
+                    root_sent_false = not act[1]
                 if act[1]:
                     any_send_true = True
                     if leaving:
@@ -307,6 +361,14 @@ def run_case(case, FST, oracle=True):
             try:
                 if op == 'replace':
                     tf.replace(act[2], norm=True)
+                elif op in ('delslice', 'putslice'):
+                    site = slice_site(ta)
+                    if site is None:
+                        continue
+                    pf, field, idx, n = site
+                    stop = min(idx + act[2], n)
+                    code = None if op == 'delslice' else SLICE_CODE.get(pf.a.__class__.__name__, '[zz, yy]')
+                    pf.put_slice(code, idx, stop, field, norm=True)
                 else:
                     tf.remove(norm=True)
             except Exception as e:
@@ -326,7 +388,10 @@ def run_case(case, FST, oracle=True):
                 fo = getattr(o, 'f', None)
                 if i in before_f and fo is not None and before_f[i] is not None and num.fid.get(id(fo)) != before_f[i]:
                     res['moved'] = True        # an existing AST was re-homed into another FST (e.g. BoolOp collapse)
-            if op == 'replace':
+            if op in ('delslice', 'putslice'):
+                res['idealA'] = False                      # slice edit: the model follows the observed tree
+                mA.append(['settree', t_now, num.next])
+            elif op == 'replace':
                 na = tf.a
                 if na is None or id(na) not in num.aid or num.aid[id(na)] != old_next:
                     res['idealA'] = False                  # not a "same FST, fresh AST" replacement
@@ -344,6 +409,8 @@ def run_case(case, FST, oracle=True):
         else:
             if srch and not srch['nested'] and did_send is None:
                 did_send = False        # search(nested=False) sends False itself when the consumer did not send
+                if f is wroot and not leaving:
+                    root_sent_false = True
                 if not leaving:
                     acts = acts or [['send', False]]
             if oracle and a is not None and not leaving and acts:
@@ -384,6 +451,17 @@ def run_case(case, FST, oracle=True):
         limit = next0 + introduced
         if not sent_true_on_leave and (n_enter > limit or n_leave > limit):
             bad('unbounded', f'{n_enter} entry / {n_leave} leaving yields > {limit} = initial nodes + introduced nodes')
+        if on == 'both' and not case.get('scope'):
+            # every node that was entered and is still in the tree at the end must have been left
+            reach = _reachable(root.a)
+            left = {y[0] for y in res['yields'] if y[2]}
+            for fo, lv0 in entered_fsts:
+                fa = fo.a
+                if (fa is not None and getattr(fa, 'f', None) is fo and id(fa) in reach and vis_of(fa, all_)
+                        and num.fid.get(id(fo)) not in left):
+                    bad('enter-without-leave', f'{fa.__class__.__name__} was yielded on entering but never on leaving',
+                        ('send-false', 'root') if (fo is wroot and root_sent_false) else None)
+                    break
         d = final_oracle(root, case.get('mode', 'exec'))
         if d:
             bad('final-tree', d)
